@@ -184,6 +184,20 @@ def run(tier):
         for seq in itertools.product(xops, repeat=n):
             lines.append("X " + " ".join(seq))
             exps.append(registry_oracle(seq))
+    # many distinct tags / type ids in one registry (more entries than buckets, several times over): every one stays
+    # reachable after each further registration, removal and re-registration
+    for fam in ("type%02d", "ns/t%d", "k%d", "a.b.c/long-tag-name-%d"):
+        for n in (17, 18, 24, 40, 60):
+            names = [fam % i for i in range(n)]
+            seq = ["+%s=%d" % (t, 1 + i % 2) for i, t in enumerate(names)]
+            seq += ["-%s" % names[i] for i in range(0, n, 5)] + ["+%s=2" % names[i] for i in range(0, n, 10)] + ["?%s" % names[n - 1]]
+            lines.append("G " + " ".join(seq))
+            exps.append(registry_oracle(seq))
+    for n in (17, 24, 40, 60):
+        idl = [str(3 + 7 * i) for i in range(n)]
+        seq = ["+%s=%d" % (t, 1 + i % 2) for i, t in enumerate(idl)] + ["-%s" % idl[i] for i in range(0, n, 5)] + ["+%s=2" % idl[i] for i in range(0, n, 10)]
+        lines.append("X " + " ".join(seq))
+        exps.append(registry_oracle(seq))
     impl, model, diffs, crashes, mcr = K.correspond("core", lines)
     rep.count("registry-sequences", len(lines))
     rep.coverage["colliding_tags"] = [t1, t2]
